@@ -211,34 +211,86 @@ theorem prefix_gotos (cs : Chains) (f : Nat) (prefixes : List String) (rest : Li
 
 /-- the tunnel-filter rules at the top of `cali-INPUT` do not fire for a packet that is neither IPIP
 nor UDP. -/
-theorem input_tunnel_rules_skipped (c : Config) (p : Pkt) (h4 : p.proto ≠ 4) (h17 : p.proto ≠ 17) :
+theorem input_tunnel_rules_skipped (c : Config) (p : Pkt) (h4 : c.ipip = false ∨ p.proto ≠ 4)
+    (h17 : c.vxlan = false ∨ ¬ (p.proto = 17 ∧ p.dport = c.vxlanPort)) :
     ∀ r ∈ inputTunnelRules c, r.matches p = false := by
   intro r hr
   unfold inputTunnelRules at hr
   rcases List.mem_append.1 hr with hr | hr
   · split at hr
-    · simp at hr; rcases hr with rfl | rfl <;> simp [Rule.matches, Crit.holds, h4]
+    · rename_i hi
+      rcases h4 with h4 | h4
+      · rw [h4] at hi; cases hi
+      · simp at hr; rcases hr with rfl | rfl <;> simp [Rule.matches, Crit.holds, h4]
     · simp at hr
   · split at hr
-    · simp at hr; rcases hr with rfl | rfl <;> simp [Rule.matches, Crit.holds, h17]
+    · rename_i hv
+      rcases h17 with h17 | h17
+      · rw [h17] at hv; cases hv
+      · simp at hr
+        rcases hr with rfl | rfl
+        · simp only [Rule.matches, List.all_cons, List.all_nil, Crit.holds, Bool.and_true]
+          by_cases e : p.proto = 17
+          · have : p.dport ≠ c.vxlanPort := fun e' => h17 ⟨e, e'⟩
+            simp [e, this]
+          · simp [e]
+        · simp only [Rule.matches, List.all_cons, List.all_nil, Crit.holds, Bool.and_true]
+          by_cases e : p.proto = 17
+          · have : p.dport ≠ c.vxlanPort := fun e' => h17 ⟨e, e'⟩
+            simp [e, this]
+          · simp [e]
     · simp at hr
 
-/-- **unknown_workload_iface_dropped (INPUT path).**  A packet (not IPIP/UDP tunnel traffic) arriving
-on an interface that matches a workload prefix but none of the endpoints Felix knows is dropped on
-the input path, whatever else is configured: `cali-INPUT` → `cali-wl-to-host` →
-`cali-from-wl-dispatch` → "Unknown interface" DROP. -/
+/-- **wl_to_host_after_egress, whole INPUT path.**  A packet arriving on a workload interface that
+is not caught by the tunnel-source filter at the top of `cali-INPUT` (not IPIP when IPIP is enabled,
+not UDP to the VXLAN port when VXLAN is enabled) goes `cali-INPUT` → `cali-wl-to-host` →
+`cali-from-wl-dispatch`: its verdict is the workload egress dispatch's verdict, and the configured
+endpoint-to-host action applies only if that dispatch (the workload's egress policy) returned it.
+Nothing of host endpoint policy and no other rule of `cali-INPUT` is involved.  The guard is needed:
+see `tunnel_from_workload_iface_witness`. -/
+theorem workload_to_host_whole_path (cs : Chains) (f : Nat) (c : Config) (p : Pkt)
+    (h4 : c.ipip = false ∨ p.proto ≠ 4) (h17 : c.vxlan = false ∨ ¬ (p.proto = 17 ∧ p.dport = c.vxlanPort))
+    (hwl : ∃ pfx ∈ c.prefixes, ifaceMatches (pfx ++ "+") p.inIf = true)
+    (h1 : cs chWlToHost = some (wlToHostChain c)) :
+    runRules cs (f + 1) (filterInputChain c) p =
+      (match runChain cs f chFromWlDispatch p with
+       | .fall p' => (match c.toHost with
+          | .accept => .accept
+          | .drop => .drop
+          | _ => runRules cs f [{ comment := some "Configured DefaultEndpointToHostAction", action := c.toHost }] p')
+       | v => v) := by
+  unfold filterInputChain
+  rw [runRules_skip cs _ _ _ p (input_tunnel_rules_skipped c p h4 h17),
+      prefix_gotos cs _ c.prefixes _ p hwl, runChain_succ cs f chWlToHost p _ h1,
+      wl_to_host_after_egress]
+
+/-- **unknown_workload_iface_dropped (INPUT path).**  A packet arriving on an interface that matches
+a workload prefix but none of the endpoints Felix knows is dropped on the input path, whatever else
+is configured: `cali-INPUT` → `cali-wl-to-host` → `cali-from-wl-dispatch` → "Unknown interface" DROP.
+Guard: the packet is not caught by the tunnel-source filter first (not IPIP when IPIP is enabled,
+not UDP to the VXLAN port when VXLAN is enabled) — see `tunnel_from_workload_iface_witness`. -/
 theorem unknown_workload_iface_dropped_input (cs : Chains) (f : Nat) (c : Config) (ifaces : List String) (p : Pkt)
-    (h4 : p.proto ≠ 4) (h17 : p.proto ≠ 17)
+    (h4 : c.ipip = false ∨ p.proto ≠ 4) (h17 : c.vxlan = false ∨ ¬ (p.proto = 17 ∧ p.dport = c.vxlanPort))
     (hwl : ∃ pfx ∈ c.prefixes, ifaceMatches (pfx ++ "+") p.inIf = true)
     (hunk : ∀ n ∈ ifaces, ifaceMatches n p.inIf = false)
     (h1 : cs chWlToHost = some (wlToHostChain c))
     (h2 : cs chFromWlDispatch = some (wlDispatchChain true ifaces)) :
     runRules cs (f + 2) (filterInputChain c) p = .drop := by
-  unfold filterInputChain
-  rw [runRules_skip cs _ _ _ p (input_tunnel_rules_skipped c p h4 h17),
-      prefix_gotos cs _ c.prefixes _ p hwl, runChain_succ cs (f + 1) chWlToHost p _ h1,
-      wl_to_host_after_egress, runChain_succ cs f chFromWlDispatch p _ h2,
+  rw [workload_to_host_whole_path cs (f + 1) c p h4 h17 hwl h1, runChain_succ cs f chFromWlDispatch p _ h2,
       wlDispatch_unknown_dropped cs f ifaces p hunk]
+
+/-- The guard of the two theorems above cannot be dropped (limit of the guarantee IN THE FILTER TABLE):
+the tunnel-source filter sits above the workload-interface diversion in `cali-INPUT`, so an IPIP
+packet (or a UDP packet to the VXLAN port) that arrives on a workload interface — even one Felix does
+not know — with a source address in the all-Calico-hosts (VTEP) IP set and a local destination gets the
+filter allow action before any workload egress policy or the "Unknown interface" drop.  What stops a
+workload from sending it is the anti-spoofing RPF check in raw PREROUTING (`workload_spoof_dropped_raw`):
+a workload cannot legitimately source a host's address. -/
+theorem tunnel_from_workload_iface_witness :
+    runRules exChains 4 (filterInputChain exCfg)
+      { exPkt with inIf := "cali9999", proto := 4, srcSets := [ipsetAllHosts] } = .accept ∧
+    runRules exChains 4 (filterInputChain exCfg) { exPkt with inIf := "cali9999" } = .drop := by
+  decide
 
 /-- **foreign_tunnel_dropped.**  With IPIP enabled, an IPIP packet whose source is not in the
 all-Calico-hosts IP set (or that is not addressed to the host) is dropped by `cali-INPUT`; with VXLAN
@@ -445,27 +497,8 @@ theorem failsafe_mangle_prerouting (cs : Chains) (f : Nat) (c : Config) (tiers :
     exact Or.inl rfl
 
 theorem input_tunnel_rules_skipped' (c : Config) (p : Pkt) (h4 : p.proto ≠ 4)
-    (h17 : ¬ (p.proto = 17 ∧ p.dport = c.vxlanPort)) : ∀ r ∈ inputTunnelRules c, r.matches p = false := by
-  intro r hr
-  unfold inputTunnelRules at hr
-  rcases List.mem_append.1 hr with hr | hr
-  · split at hr
-    · simp at hr; rcases hr with rfl | rfl <;> simp [Rule.matches, Crit.holds, h4]
-    · simp at hr
-  · split at hr
-    · simp at hr
-      rcases hr with rfl | rfl
-      · simp only [Rule.matches, List.all_cons, List.all_nil, Crit.holds, Bool.and_true]
-        by_cases e : p.proto = 17
-        · have : p.dport ≠ c.vxlanPort := fun e' => h17 ⟨e, e'⟩
-          simp [e, this]
-        · simp [e]
-      · simp only [Rule.matches, List.all_cons, List.all_nil, Crit.holds, Bool.and_true]
-        by_cases e : p.proto = 17
-        · have : p.dport ≠ c.vxlanPort := fun e' => h17 ⟨e, e'⟩
-          simp [e, this]
-        · simp [e]
-    · simp at hr
+    (h17 : ¬ (p.proto = 17 ∧ p.dport = c.vxlanPort)) : ∀ r ∈ inputTunnelRules c, r.matches p = false :=
+  input_tunnel_rules_skipped c p (Or.inr h4) (Or.inr h17)
 
 /-- **failsafe, normal path (filter INPUT), whole path.**  A NEW-connection packet to an inbound
 failsafe port on a host endpoint's interface (not a workload interface, not tunnel traffic) is never
@@ -539,6 +572,61 @@ theorem failsafe_filter_output (cs : Chains) (f : Nat) (c : Config) (tiers : Lis
       hep_dispatch_out_accepts cs f c .filterOut tiers iface ({ p with mark := clearBits p.mark markAll } : Pkt) pp hfam rfl (Or.inr hct) hdisp hif hchain hin hout hpp
         (matchesOut_mark p pp _ hm)]
   exact Or.inl rfl
+
+/-! ## anti-spoofing for workload interfaces (raw PREROUTING) -/
+
+/-- the run of "mark packets from workload interfaces" rules: the packet continues with some mark,
+which has the workload bit set as soon as one prefix matches its in-interface. -/
+theorem prefix_setmarks (cs : Chains) (f : Nat) (prefixes : List String) (rest : List Rule) (q : Pkt) :
+    ∃ m', runRules cs f (prefixes.map (fun pfx => ({ crits := [.inIf (pfx ++ "+")], action := .setMark markScratch0 } : Rule)) ++ rest) q
+        = runRules cs f rest { q with mark := m' } ∧
+      (q.mark.testBit 18 = true → m'.testBit 18 = true) ∧
+      ((∃ pfx ∈ prefixes, ifaceMatches (pfx ++ "+") q.inIf = true) → m'.testBit 18 = true) := by
+  induction prefixes generalizing q with
+  | nil => exact ⟨q.mark, rfl, id, fun h => by obtain ⟨x, hx, _⟩ := h; simp at hx⟩
+  | cons a as ih =>
+    simp only [List.map_cons, List.cons_append]
+    by_cases ha : ifaceMatches (a ++ "+") q.inIf = true
+    · rw [runRules_cons_setMark cs f _ _ q markScratch0 (by simp [Rule.matches, Crit.holds, ha]) rfl]
+      obtain ⟨m', h1, h2, _⟩ := ih { q with mark := q.mark ||| markScratch0 }
+      have hb : (q.mark ||| markScratch0).testBit 18 = true := testBit_or_two_pow q.mark 18
+      exact ⟨m', h1, fun _ => h2 hb, fun _ => h2 hb⟩
+    · have ha' : ifaceMatches (a ++ "+") q.inIf = false := by simpa using ha
+      rw [runRules_cons_nomatch cs f _ _ q (by simp [Rule.matches, Crit.holds, ha'])]
+      obtain ⟨m', h1, h2, h3⟩ := ih q
+      refine ⟨m', h1, h2, ?_⟩
+      rintro ⟨x, hx, hxm⟩
+      rcases List.mem_cons.1 hx with e | e
+      · subst e; rw [hxm] at ha'; cases ha'
+      · exact h3 ⟨x, e, hxm⟩
+
+/-- **anti-spoofing.**  A packet that arrives on a workload interface and fails the reverse-path
+check (its source address is not routed via that interface — e.g. a workload sourcing a host's
+address to get past the tunnel-source filter of `cali-INPUT`) is dropped in raw PREROUTING, before
+conntrack and before the filter table, provided the per-endpoint RPF-skip chain does not exempt it
+(`cali-rpf-skip` hands it back). -/
+theorem workload_spoof_dropped_raw (cs : Chains) (f : Nat) (c : Config) (p : Pkt)
+    (hwl : ∃ pfx ∈ c.prefixes, ifaceMatches (pfx ++ "+") p.inIf = true) (hrpf : p.rpfFail = true)
+    (hskip : ∀ q, runChain cs f chRpfSkip q = .fall q) :
+    runRules cs f (rawPreroutingChain c) p = .drop := by
+  unfold rawPreroutingChain
+  rw [runRules_cons_clear cs _ _ _ p markAll (by simp [Rule.matches]) rfl, vxlanNotrack_skip]
+  obtain ⟨m', h1, _, h3⟩ := prefix_setmarks cs f c.prefixes
+    [{ crits := [.markSet markScratch0], action := .jump chRpfSkip },
+     { crits := [.markSet markScratch0, .rpfFailed], action := .drop },
+     { crits := [.markClear markScratch0], action := .jump chFromHep },
+     { crits := [.markSet markAccept], action := .accept }]
+    ({ p with mark := clearBits p.mark markAll } : Pkt)
+  rw [h1]
+  have hbit : m'.testBit 18 = true := h3 hwl
+  have hset : (Crit.markSet markScratch0).holds ({ p with mark := m' } : Pkt) = true := by
+    simp only [Crit.holds]; rw [and_two_pow_eq_iff]; exact hbit
+  rw [runRules_cons_jump cs _ _ _ _ chRpfSkip (by simp only [Rule.matches, List.all_cons, List.all_nil, Bool.and_true]; exact hset) rfl,
+      hskip]
+  simp only []
+  exact runRules_cons_drop cs _ _ _ _ (by
+    simp only [Rule.matches, List.all_cons, List.all_nil, Bool.and_true, hset, Bool.true_and]
+    simp [Crit.holds, hrpf]) rfl
 
 /-! ## ESTABLISHED / RELATED packets (failsafe or not) are never dropped by host endpoint policy -/
 
